@@ -341,7 +341,7 @@ def window_walks(cx, iid):
         ends = [(l, show(b.rvalue_expr(node["rv"]))) for l, node, ps in b.field_writes(r"arg1\.end_id") if node["k"] == "assign"]
         keep = []
         for (bb, y, lab), lits in fa.edge_lits.items():
-            if any(re.fullmatch(r"le\(packet_id::sub\(arg2,arg1\.base_id\),packet_id::sub\(arg1\.end_id,arg1\.base_id\)\)", x) for x in lits):
+            if any(re.fullmatch(r"l[et]\(packet_id::sub\(arg2,arg1\.base_id\),packet_id::sub\(arg1\.end_id,arg1\.base_id\)\)", x) for x in lits):
                 keep.append(Loc(y, -1))
         for l, v in ends:
             inst.site(b, l, "end_id = " + v)
